@@ -581,6 +581,16 @@ def touchesDeletion (spans : List OSpan) (start stop : Nat) : Bool :=
 def contextSpan (spans : List OSpan) (start stop : Nat) : Option OSpan :=
   spans.find? fun o => o.real && o.stop > start && o.start < stop
 
+/-- `insertion_enclosing_range`: id of the pending insertion that contains every real character of the range -/
+def insertionEnclosing (spans : List OSpan) (start stop : Nat) : Option Str :=
+  let real := spans.filter fun o => o.real && o.stop > start && o.start < stop
+  match real.head? with
+  | none => none
+  | some o =>
+    match truthyStr o.sp.insId with
+    | some id => if real.all (fun x => x.sp.insId == some id) then some id else none
+    | none => none
+
 mutual
   /-- first `w:ins` with the given id in document order: (path below the part, node index, first run child) -/
   def findInsBlocks (id : Str) : List Block → Nat → Option (List Nat × Nat × Option Run)
@@ -692,65 +702,130 @@ def applyInsertion (s : Sess) (spans : List OSpan) (start : Nat) (newText : Str)
     | none => (r1.1, false)
     | some p => (placeInsertion r1.1 a r1.2.2 p newText comment, true)
 
+def hasRunChild (ch : List InsChild) : Bool := ch.any fun | .run _ => true | _ => false
+
+/-- take the run child `k` out of the pending insertion at node `n`; an insertion left without runs is
+unwrapped (range markers in it stay): (new children, `some m` if it was unwrapped into `m` nodes) -/
+def takeOutOfIns (ns : List Node) (n k : Nat) : List Node × Option Nat :=
+  match ns[n]? with
+  | some (.ins rev ch) =>
+    let ch' := ch.eraseIdx k
+    if hasRunChild ch' then (ns.set n (.ins rev ch'), none)
+    else (ns.take n ++ ch'.map InsChild.toNode ++ ns.drop (n + 1), some ch'.length)
+  | _ => (ns, none)
+
+/-- a take-out event: paragraph, node, child, unwrapped into how many nodes -/
+abbrev TakeOut := PPath × Nat × Nat × Option Nat
+
+/-- where a run reference of the same paragraph points after a take-out -/
+def applyTakeOut (t : RunRef) (a : TakeOut) : RunRef :=
+  if t.para ≠ a.1 then t
+  else
+    match a.2.2.2 with
+    | none =>
+      if t.loc.node = a.2.1 then
+        match t.loc.sub with
+        | some j => if j > a.2.2.1 then { t with loc := { t.loc with sub := some (j - 1) } } else t
+        | none => t
+      else t
+    | some m => if t.loc.node > a.2.1 then { t with loc := { t.loc with node := t.loc.node + m - 1 } } else t
+
+structure Retired where
+  s : Sess
+  firstDel : Option RunRef := none     -- the first `w:del` created (paragraph, node)
+  lastDel : Option RunRef := none
+  anchor : Option (PPath × Nat × Bool) := none   -- where new text goes: paragraph, node, behind it?
+  outs : List TakeOut := []
+
+/-- the loop over the target runs: a run of ordinary text becomes a `w:del` of its own (one id each); a run
+that belongs to a pending insertion is taken out of that insertion instead (no mark inside a mark) -/
+def retireTargets : Retired → List RunRef → Retired
+  | st, [] => st
+  | st, t0 :: rest =>
+    let t := st.outs.foldl applyTakeOut t0
+    let inIns : Option Nat :=
+      match t.loc.sub, (getPara st.s.doc t.para).bind (fun p => p.nodes[t.loc.node]?) with
+      | some k, some (.ins _ _) => some k
+      | _, _ => none
+    match inIns with
+    | some k =>
+      let unw := ((getPara st.s.doc t.para).map fun p => (takeOutOfIns p.nodes t.loc.node k).2).getD none
+      let s' := { st.s with doc := modPara st.s.doc t.para fun p => ({ p with nodes := (takeOutOfIns p.nodes t.loc.node k).1 }, []) }
+      retireTargets { st with s := s', anchor := some (t.para, t.loc.node, false),
+                              outs := st.outs ++ [(t.para, t.loc.node, k, unw)] } rest
+    | none =>
+      let s' := (trackDelete st.s t).1
+      retireTargets { st with s := s', firstDel := st.firstDel.orElse (fun _ => some t), lastDel := some t,
+                              anchor := some (t.para, t.loc.node, true) } rest
+
 /-- DELETION / MODIFICATION once the target runs are known (`sPre` = session before the deletions, whose last
-target run is the style source): one `w:del` per run, then the `w:ins` behind the last one, then the comment -/
-def replaceTargets (sPre : Sess) (targets : List RunRef) (firstT lastT : RunRef) (op : EOp) (newText : Str)
+target run is the style source): the target runs are retired, then the `w:ins` goes behind the last deletion
+(or in front of what is left of the insertion the range ended in), then the comment -/
+def replaceTargets (sPre : Sess) (targets : List RunRef) (lastT : RunRef) (op : EOp) (newText : Str)
     (comment : Option Str) : Sess :=
-  -- one w:del per run, each with its own id
-  let s2 := targets.foldl (fun acc t => (trackDelete acc t).1) sPre
+  let rt := retireTargets { s := sPre } targets
+  let s2 := rt.s
   if op = .deletion then
     -- a pure deletion keeps its comment: anchored on the deletion marks
-    match truthyStr comment with
-    | none => s2
-    | some c =>
+    match truthyStr comment, rt.firstDel, rt.lastDel with
+    | some c, some fd, some ld =>
       let (s3, cid) := s2.addComment c none
-      if firstT.para = lastT.para then
-        { s3 with doc := modPara s3.doc lastT.para fun p =>
-            ({ p with nodes := attachCommentNodes p.nodes firstT.loc.node lastT.loc.node cid }, []) }
+      if fd.para = ld.para then
+        { s3 with doc := modPara s3.doc ld.para fun p =>
+            ({ p with nodes := attachCommentNodes p.nodes fd.loc.node ld.loc.node cid }, []) }
       else
-        let d1 := modPara s3.doc lastT.para fun p =>
-          ({ p with nodes := insertNodesAt p.nodes (lastT.loc.node + 1) [.ce cid, .run (crefRun cid)] }, [])
-        let d2 := modPara d1 firstT.para fun p =>
-          ({ p with nodes := insertNodesAt p.nodes firstT.loc.node [.cs cid] }, [])
+        let d1 := modPara s3.doc ld.para fun p =>
+          ({ p with nodes := insertNodesAt p.nodes (ld.loc.node + 1) [.ce cid, .run (crefRun cid)] }, [])
+        let d2 := modPara d1 fd.para fun p =>
+          ({ p with nodes := insertNodesAt p.nodes fd.loc.node [.cs cid] }, [])
         { s3 with doc := d2 }
+    | _, _, _ => s2
   else if newText.isEmpty then s2
   else
-    match getPara s2.doc lastT.para with
+    match rt.anchor with
     | none => s2
-    | some p =>
-      let (cleanText, lvl) := parseMdStyle newText
-      let text := match lvl with
-        | some l => if styleName p.style = "Heading ".toList ++ natStr l then cleanText else newText
-        | none => newText
-      let hasMd := text.contains '_' || (text.zip (text.drop 1)).any (fun (a, b) => a = '*' && b = '*')
-      let styleRun := (sPre.getRun lastT)
-      let (s3, ins, extra) := trackInsert s2 text styleRun true p comment (!hasMd)
-      let at_ := lastT.loc.node + 1
-      match ins with
-      | none => { s3 with doc := modPara s3.doc lastT.para fun p => (p, extra) }
-      | some insNode =>
-        match truthyStr comment with
-        | some c =>
-          let (s4, cid) := s3.addComment c none
-          if firstT.para = lastT.para then
-            { s4 with doc := modPara s4.doc lastT.para fun p =>
-                ({ p with nodes := attachCommentNodes (insertNodesAt p.nodes at_ [insNode]) firstT.loc.node at_ cid }, extra) }
-          else
-            let d1 := modPara s4.doc lastT.para fun p =>
-              ({ p with nodes := insertNodesAt (insertNodesAt p.nodes at_ [insNode]) (at_ + 1) [.ce cid, .run (crefRun cid)] }, extra)
-            let d2 := modPara d1 firstT.para fun p =>
-              ({ p with nodes := insertNodesAt p.nodes firstT.loc.node [.cs cid] }, [])
-            { s4 with doc := d2 }
-        | none =>
-          { s3 with doc := modPara s3.doc lastT.para fun p =>
-              ({ p with nodes := insertNodesAt p.nodes at_ [insNode] }, extra) }
+    | some (apara, anode, after) =>
+      match getPara s2.doc apara with
+      | none => s2
+      | some p =>
+        let (cleanText, lvl) := parseMdStyle newText
+        let text := match lvl with
+          | some l => if styleName p.style = "Heading ".toList ++ natStr l then cleanText else newText
+          | none => newText
+        let hasMd := text.contains '_' || (text.zip (text.drop 1)).any (fun (a, b) => a = '*' && b = '*')
+        let styleRun := (sPre.getRun lastT)
+        let (s3, ins, extra) := trackInsert s2 text styleRun true p comment (!hasMd)
+        let at_ := if after then anode + 1 else anode
+        match ins with
+        | none => { s3 with doc := modPara s3.doc apara fun p => (p, extra) }
+        | some insNode =>
+          match truthyStr comment with
+          | some c =>
+            let (s4, cid) := s3.addComment c none
+            match rt.firstDel with
+            | some fd =>
+              if fd.para = apara then
+                { s4 with doc := modPara s4.doc apara fun p =>
+                    ({ p with nodes := attachCommentNodes (insertNodesAt p.nodes at_ [insNode]) fd.loc.node at_ cid }, extra) }
+              else
+                let d1 := modPara s4.doc apara fun p =>
+                  ({ p with nodes := insertNodesAt (insertNodesAt p.nodes at_ [insNode]) (at_ + 1) [.ce cid, .run (crefRun cid)] }, extra)
+                let d2 := modPara d1 fd.para fun p =>
+                  ({ p with nodes := insertNodesAt p.nodes fd.loc.node [.cs cid] }, [])
+                { s4 with doc := d2 }
+            | none =>
+              { s4 with doc := modPara s4.doc apara fun p =>
+                  ({ p with nodes := attachCommentNodes (insertNodesAt p.nodes at_ [insNode]) at_ at_ cid }, extra) }
+          | none =>
+            { s3 with doc := modPara s3.doc apara fun p =>
+                ({ p with nodes := insertNodesAt p.nodes at_ [insNode] }, extra) }
 
 /-- the DELETION / MODIFICATION branch of `_apply_single_edit_indexed` -/
 def applyReplace (s : Sess) (spans : List OSpan) (op : EOp) (start len : Nat) (newText : Str)
     (comment : Option Str) : Sess × Bool :=
   let r := resolveRuns s spans start (start + len)
   match r.2.head?, r.2.getLast? with
-  | some firstT, some lastT => (replaceTargets r.1 r.2 firstT lastT op newText comment, true)
+  | some _, some lastT => (replaceTargets r.1 r.2 lastT op newText comment, true)
   | _, _ => (r.1, false)
 
 /-- `_apply_single_edit_indexed` -/
@@ -760,7 +835,7 @@ def applyIndexed (s : Sess) (clean : Bool) (start len : Nat) (newText : Str) (co
   let op := opOf op len newText
   if len > 0 && !clean && touchesDeletion spans start (start + len) then (s, false)
   else
-    let ctxIns := if len > 0 then (contextSpan spans start (start + len)).bind (·.sp.insId) else none
+    let ctxIns := if len > 0 then insertionEnclosing spans start (start + len) else none
     match ctxIns with
     | some id => nestedReplace s id newText comment
     | none =>
